@@ -929,7 +929,7 @@ func c15ManyOtherIDs(others int) string {
 		return ""
 	}
 	for i := 0; i < others; i++ {
-		id := 3000000000 + i
+		id := int64(3000000000) + int64(i)
 		if _, err := resolve(fmt.Sprintf(`type=SYSCALL msg=audit(1492752600.100:%d): arch=c000003e syscall=2 success=yes exit=3 a0=0 a1=0 a2=0 a3=0 items=0 ppid=1 pid=%d auid=%d uid=%d gid=%d euid=%d suid=%d fsuid=%d egid=%d sgid=%d fsgid=%d tty=pts0 ses=12 comm="cat" exe="/bin/cat"`,
 			9000+i, 100+i, id, id, id+1, id, id, id, id+1, id+1, id+1)); err != nil {
 			return ""
